@@ -274,6 +274,30 @@ func (cv *conv) waitFor(what string, from int, m func(SFrame) bool) bool {
 	}
 }
 
+// waitUntil waits until cond (a predicate on cv.frames) holds.
+func (cv *conv) waitUntil(what string, cond func() bool) bool {
+	deadline := time.Now().Add(waitT)
+	for !cond() {
+		if !cv.pump(deadline) {
+			if !cv.term {
+				cv.stall = append(cv.stall, what)
+			}
+			return false
+		}
+	}
+	return true
+}
+
+func (cv *conv) countKind(kind string) int {
+	n := 0
+	for _, f := range cv.frames {
+		if f.Kind == kind {
+			n++
+		}
+	}
+	return n
+}
+
 func (cv *conv) waitTerm(what string) bool {
 	deadline := time.Now().Add(waitT)
 	for !cv.term {
@@ -333,6 +357,13 @@ func runConversation(tag string, sc Script) (res Result) {
 	var clientClosing int32
 	readerDone := make(chan struct{})
 	c.SetPongHandler(func(s string) error { cv.evs <- event{kind: "pong", tok: s}; return nil })
+	// The client does not answer the server's close frame by itself: the harness first records
+	// the counters (the server is then waiting for the answer, its shutdown has not run), then
+	// answers.  This separates what a frame did from what the shutdown did.
+	c.SetCloseHandler(func(code int, text string) error { return nil })
+	replyClose := func() {
+		c.WriteControl(websocket.CloseMessage, websocket.FormatCloseMessage(websocket.CloseNormalClosure, ""), time.Now().Add(waitT))
+	}
 	startReader := func() {
 		go func() {
 			defer close(readerDone)
@@ -418,9 +449,13 @@ func runConversation(tag string, sc Script) (res Result) {
 	doEmit := func(l Label) {
 		n := len(performed)
 		from := len(cv.frames)
+		src := w.source(l.Src)
+		l.Op = n
+		if src != nil {
+			l.Op = src.n
+		}
 		performed = append(performed, l)
 		cv.log = append(cv.log, sexp.T("sent", sexp.Int(n)))
-		src := w.source(l.Src)
 		if src != nil && !src.ended && atomic.LoadInt32(&src.stops) == 0 && src.emitted < 998 {
 			src.emitted++
 			val := src.n*1000 + src.emitted
@@ -444,13 +479,18 @@ func runConversation(tag string, sc Script) (res Result) {
 	doSrcEnd := func(l Label) {
 		n := len(performed)
 		from := len(cv.frames)
+		src := w.source(l.Src)
+		l.Op = n
+		if src != nil {
+			l.Op = src.n
+		}
 		performed = append(performed, l)
 		cv.log = append(cv.log, sexp.T("sent", sexp.Int(n)))
-		src := w.source(l.Src)
 		if src != nil && !src.ended {
 			src.ended = true
 			live := atomic.LoadInt32(&src.stops) == 0
 			close(src.ch)
+			w.addExec(sexp.T("srcended", sexp.Int(src.n)))
 			if live && !cv.noRead {
 				id := idOfSource(performed, src)
 				cv.waitFor("complete-after-source-end", from, func(f SFrame) bool { return f.Kind == "complete" && f.ID == id })
@@ -459,6 +499,28 @@ func runConversation(tag string, sc Script) (res Result) {
 		obs = append(obs, snapshot())
 	}
 
+	startWord, stopWord := "start", "stop"
+	if sc.Proto == protoTWS {
+		startWord, stopWord = "subscribe", "complete"
+	}
+	// flush: a barrier query through the outgoing queue.  Frames queued by the read loop are
+	// written in order, so once the barrier's complete is here every frame queued earlier is
+	// here too.  It is done before a label whose reaction is awaited by operation id (a complete
+	// after stop / after the end of a source), so that a complete still in flight for an earlier
+	// query with the same id cannot be mistaken for it, and before the ending.  The barrier is an
+	// ordinary label of the conversation (the model sees it too).
+	dirty := false
+	flush := func() {
+		if !dirty || !cv.ackSeen || cv.term || cv.noRead {
+			return
+		}
+		from := len(cv.frames)
+		doFrame(Label{Kind: lMsg, Type: startWord, ID: barrierID, Pay: "doc", Doc: "query"})
+		if !cv.term {
+			cv.waitFor("barrier", from, func(f SFrame) bool { return f.Kind == "complete" && f.ID == barrierID })
+		}
+		dirty = false
+	}
 	if !cv.noRead {
 		startReader()
 	}
@@ -468,17 +530,23 @@ func runConversation(tag string, sc Script) (res Result) {
 		}
 		switch l.Kind {
 		case lMsg, lMalformed:
+			if l.Kind == lMsg && l.Type == stopWord {
+				flush()
+				if cv.term {
+					break
+				}
+			}
 			doFrame(l)
+			dirty = true
 		case lEmit:
 			doEmit(l)
 		case lSrcEnd:
+			flush()
+			if cv.term {
+				break
+			}
 			doSrcEnd(l)
 		}
-	}
-
-	startWord := "start"
-	if sc.Proto == protoTWS {
-		startWord = "subscribe"
 	}
 	if sc.Flood > 0 && !cv.term {
 		// a client that never reads: big responses fill the socket buffers and the outgoing queue
@@ -504,11 +572,22 @@ func runConversation(tag string, sc Script) (res Result) {
 		end = "peer"
 		cv.log = append(cv.log, sexp.T("f", SFrame{Kind: "closed", Code: cv.termCode}.sexp()))
 	} else {
-		if sc.Barrier && cv.ackSeen && !cv.noRead {
-			from := len(cv.frames)
-			doFrame(Label{Kind: lMsg, Type: startWord, ID: barrierID, Pay: "doc", Doc: "query"})
-			if !cv.term {
-				cv.waitFor("barrier", from, func(f SFrame) bool { return f.Kind == "complete" && f.ID == barrierID })
+		if sc.Barrier && !cv.noRead {
+			// flush: everything the read loop has queued so far is received before the ending
+			if cv.ackSeen {
+				flush()
+			} else if sc.Proto == protoTWS && dirty {
+				// not initialised: the only frames that can be queued answer pings
+				doFrame(Label{Kind: lMsg, Type: "ping", Pay: "none"})
+				if !cv.term {
+					pings := 0
+					for _, l := range performed {
+						if l.Kind == lMsg && l.Type == "ping" {
+							pings++
+						}
+					}
+					cv.waitUntil("pong-barrier", func() bool { return cv.countKind("pong") >= pings })
+				}
 			}
 		}
 		if cv.term {
@@ -519,6 +598,7 @@ func runConversation(tag string, sc Script) (res Result) {
 	cv.log = append(cv.log, sexp.T("sent", sexp.Int(len(performed))))
 	switch end {
 	case "peer":
+		replyClose()
 	case "client-close":
 		atomic.StoreInt32(&clientClosing, 1)
 		c.WriteControl(websocket.CloseMessage, websocket.FormatCloseMessage(websocket.CloseNormalClosure, "bye"), time.Now().Add(waitT))
@@ -535,6 +615,12 @@ func runConversation(tag string, sc Script) (res Result) {
 	case "app-close":
 		done := make(chan struct{})
 		go func() { api.CloseHijackedConnections(); close(done) }()
+		if !cv.noRead {
+			if cv.waitTerm("close-from-application") {
+				cv.log = append(cv.log, sexp.T("f", SFrame{Kind: "closed", Code: cv.termCode}.sexp()))
+			}
+		}
+		replyClose()
 		t := time.NewTimer(2 * waitT)
 		select {
 		case <-done:
@@ -542,11 +628,6 @@ func runConversation(tag string, sc Script) (res Result) {
 			cv.stall = append(cv.stall, "CloseHijackedConnections-blocked")
 		}
 		t.Stop()
-		if !cv.noRead {
-			if cv.waitTerm("close-from-application") {
-				cv.log = append(cv.log, sexp.T("f", SFrame{Kind: "closed", Code: cv.termCode}.sexp()))
-			}
-		}
 	default:
 		panic("ending " + end)
 	}
